@@ -28,8 +28,9 @@ LR == L \cup {"static"}             \* ... in the return type (no elision in ret
 \*   opq    &'1 Opq              optopq Option<&'1 Opq>        slice  &'1 [u8]
 \*   opqlt  &'1 OpLt<'2>         (implies '2: '1)
 \*   st1    St1<'1>              st2    St2<'1,'2>             st2b   St2b<'1,'2>  (definition: 'q: 'p, i.e. '2: '1)
+\*   nst2   Nst2<'1,'2>          a struct whose fields are themselves borrowing structs (St1<'p>, St2<'q,'q>)
 Slots(k) == IF k \in {"opq", "optopq", "slice", "st1"} THEN 1 ELSE 2
-IsStruct(k) == k \in {"st1", "st2", "st2b"}
+IsStruct(k) == k \in {"st1", "st2", "st2b", "nst2"}
 EdgeKind(k) == IF k = "slice" THEN "slice" ELSE IF IsStruct(k) THEN "struct" ELSE "opaque"
 DefLt(k, i) == IF i = 1 THEN "p" ELSE "q"           \* names of the struct definitions' lifetimes
 \* return kinds:  ropq &'1 Opq | roptopq Option<&'1 Opq> | rslice &'1 str | rbox Box<OpLt<'1>> | rst1 St1<'1>
